@@ -169,6 +169,11 @@ func (ex *Exec) convert(st *State, fr *Frame, x *ssa.Convert) Val {
 		v.Typ = to
 		return v
 	}
+	if sf == "Real" || stt == "Real" {
+		// floating point is not modelled: the converted value is unconstrained (sound, imprecise)
+		ex.notes["FLOAT-CONVERSION-UNCONSTRAINED "+ex.curKey] = true
+		return ex.symVal(st, to, "fconv")
+	}
 	ex.unsupported("convert %v -> %v", from, to)
 	return ex.symVal(st, to, "conv")
 }
@@ -250,6 +255,9 @@ func (ex *Exec) typeAssert(st *State, fr *Frame, x *ssa.TypeAssert) Val {
 // ---------- maps ----------
 
 func (ex *Exec) mapInfo(m Val) (*types.Map, string, string) {
+	if m.Typ == nil {
+		return nil, "", ""
+	}
 	mt, ok := types.Unalias(m.Typ).Underlying().(*types.Map)
 	if !ok {
 		return nil, "", ""
@@ -496,8 +504,22 @@ func (ex *Exec) sliceOp(st *State, fr *Frame, x *ssa.Slice) Val {
 		st.assume("(distinct " + id + " 0)")
 		st.assume("(= (slen " + id + ") (- " + hi + " " + lo + "))")
 		arr := "arr." + so
+		var elems []Val
 		for j := int64(0); j < at.Len() && j < 8; j++ {
-			st.assume(fmt.Sprintf("(= (%s %s %d) %s)", satFn(so), id, j, st.read(arr, so, fmt.Sprintf("(aidx %s (+ %s %d))", a.T, lo, j))))
+			idx := fmt.Sprintf("(+ %s %d)", lo, j)
+			if lo == "0" {
+				idx = fmt.Sprint(j)
+			}
+			ref := fmt.Sprintf("(aidx %s %s)", a.T, idx)
+			if cv, ok := ex.cellVals[arr+"@"+ref]; ok && lo == "0" {
+				elems = append(elems, cv)
+				st.assume(fmt.Sprintf("(= (%s %s %d) %s)", satFn(so), id, j, cv.T))
+				continue
+			}
+			st.assume(fmt.Sprintf("(= (%s %s %d) %s)", satFn(so), id, j, st.read(arr, so, ref)))
+		}
+		if int64(len(elems)) == at.Len() && hi == fmt.Sprint(at.Len()) {
+			ex.sliceVals[id] = elems
 		}
 		if at.Len() > 8 {
 			ex.unsupported("array literal longer than 8")
